@@ -127,8 +127,12 @@ func checkC08(c *chk.Ctx) {
 			fld("p", 1, cc.Kind, abs.Ann{})
 			fld("q", 2, cc.Kind, abs.Ann{Query: true})
 			fld("rq", 3, cc.Kind, abs.Ann{Query: true, QueryReq: true})
+			msg.Fields = append(msg.Fields, &abs.Field{Name: "rep", Num: 5, Kind: "string", Card: "rep", Rules: abs.NoRules(), Ann: abs.Ann{Query: true}},
+				&abs.Field{Name: "oq", Num: 6, Kind: "int32", Card: "opt", Rules: abs.NoRules(), Ann: abs.Ann{Query: true}})
+			sh.fields = append(sh.fields, "rep", "oq")
 			sh.pvars = []string{"p"}
-			sh.query = []map[string]any{{"field": "q", "name": "q", "required": false}, {"field": "rq", "name": "rq", "required": true}}
+			sh.query = []map[string]any{{"field": "q", "name": "q", "required": false}, {"field": "rq", "name": "rq", "required": true},
+				{"field": "rep", "name": "rep", "required": false}, {"field": "oq", "name": "oq", "required": false}}
 			sh.path = fmt.Sprintf("/s%d/{p}", sh.idx)
 		case "p":
 			fld("p", 1, cc.Kind, abs.Ann{})
@@ -266,6 +270,14 @@ func checkC08(c *chk.Ctx) {
 		set1("p", cc.Kind, cc.Cls)
 		set1("q", cc.Kind, cc.Cls)
 		set1("rq", cc.Kind, cc.Cls)
+		if fd := fds.ByName("rep"); fd != nil && cc.Cls != "zero" {
+			l := m.Mutable(fd).List()
+			l.Append(protoreflect.ValueOfString("r1"))
+			l.Append(protoreflect.ValueOfString("r 2,x"))
+		}
+		if fd := fds.ByName("oq"); fd != nil && cc.Cls != "zero" {
+			m.Set(fd, protoreflect.ValueOfInt32(map[bool]int32{false: 7, true: 0}[cc.Cls == "max"])) // max: explicitly set to 0 (presence counts)
+		}
 		if fd := fds.ByName("p2"); fd != nil {
 			m.Set(fd, protoreflect.ValueOfString("second seg"))
 		}
@@ -501,9 +513,21 @@ func checkC08(c *chk.Ctx) {
 			q, _ := url.ParseQuery(fmt.Sprint(e["rawQuery"]))
 			for _, qd := range p.sh.query {
 				n := fmt.Sprint(qd["name"])
-				if vs, ok := q[n]; ok && len(vs) > 0 {
-					queryVals = append(queryVals, map[string]string{"k": n, "v": tokOf(n, vs[0])})
+				vs, ok := q[n]
+				if !ok || len(vs) == 0 {
+					continue
 				}
+				if fd := md.Fields().ByName(protoreflect.Name(n)); fd != nil && fd.IsList() {
+					tmp := dynamicpb.NewMessage(md)
+					for _, one := range vs {
+						if v, err := wireParseScalar(fd, one); err == nil {
+							tmp.Mutable(fd).List().Append(v)
+						}
+					}
+					queryVals = append(queryVals, map[string]string{"k": n, "v": val.Field(tmp, fd)})
+					continue
+				}
+				queryVals = append(queryVals, map[string]string{"k": n, "v": tokOf(n, vs[0])})
 			}
 			ct := "other"
 			hdrVals := []map[string]string{}
